@@ -19,6 +19,7 @@ class StatementSplitter:
         self._in_declare = False
         self._in_case = 0
         self._in_loop_header = False
+        self._stmt_start = True
         self._is_create = False
         self._begin_depth = 0
 
@@ -28,6 +29,16 @@ class StatementSplitter:
 
     def _change_splitlevel(self, ttype, value):
         """Get the new split level (increase, decrease or remain equal)"""
+
+        # IF, FOR and WHILE open a block only where a statement can start,
+        # not in "DROP TABLE IF EXISTS" or "SELECT ... FOR UPDATE".
+        stmt_start = self._stmt_start
+        if ttype not in T.Whitespace and ttype not in T.Comment:
+            self._stmt_start = (
+                (ttype is T.Punctuation and value in (';', ':'))
+                or (ttype is T.Comparison and value == '>>')
+                or (ttype is T.Keyword and value.upper() in (
+                    'BEGIN', 'THEN', 'ELSE', 'LOOP', 'DO')))
 
         # parenthesis increase/decrease a level
         if ttype is T.Punctuation and value == '(':
@@ -75,7 +86,8 @@ class StatementSplitter:
             return -1 if opened else 0
 
         if (unified in ('IF', 'FOR', 'WHILE', 'CASE')
-                and self._is_create and self._begin_depth > 0):
+                and self._is_create and self._begin_depth > 0
+                and (stmt_start or unified == 'CASE')):
             if unified == 'CASE':
                 # CASE can be nested (an expression inside a CASE statement)
                 self._in_case += 1
